@@ -1061,8 +1061,10 @@ class MaterialIndexer(Indexer):
                     phase, index = index
                     sparse_data = self.data
                     group_compositions = self.group_compositions
+                    scalar = get_ndim(data) == 0
                     for n, i in enumerate(index):
-                        sparse_data[:, i] = data[n] * group_compositions[key[n]] if i.__class__ is list else data[n]
+                        value = data if scalar else data[n]
+                        sparse_data[:, i] = value * group_compositions[key[n]] if i.__class__ is list else value
                 else:
                     raise IndexError('invalid index kind')
             else:
